@@ -22,9 +22,7 @@ def c01_shapes(tier):
     if tier == 'quick':
         return quick
     out = list(quick)
-    for c in (1, 4, 8, 9):
-        out.append((1, c, 0, 0, 3))
-    out += [(2, 2, 6, 0, 2), (2, 8, 8, 0, 2)]
+    out += [(1, 1, 0, 0, 3), (1, 2, 0, 0, 2), (1, 4, 0, 0, 2), (2, 0, 1, 0, 2)]
     return out
 
 def c03_shapes(tier):
